@@ -13,7 +13,7 @@ import sys
 
 ID = "C09"
 LEVEL = "other"
-CONTRACT_MODULES = ["contracts.showdiffs", "contracts.status", "contracts.aliases", "contracts.registry"]
+CONTRACT_MODULES = ["contracts.showdiffs", "contracts.status", "contracts.aliases", "contracts.registry", "contracts.rendering"]
 EXPLANATION = ("'Two runs agree' is a relation between executions of the whole pipeline; no contract on one function states it. What is under contract is "
                "the function that DECIDES the non-force run: both loops of ClientGenerator._show_diffs carry a statement contract (one arbitrary "
                "iteration, for every file): a generated file without an equal counterpart sets has_diff, an existing module that is no longer "
